@@ -55,51 +55,96 @@ func c13R1(e *Engine) {
 		return
 	}
 	found := 0
+	report := func(g *ssa.Function, in ssa.Instruction, sep string, isConst bool, comps []ssa.Value) {
+		found++
+		construct := e.fname(g) + ":composite-key-encoding"
+		injective := true
+		for _, el := range comps {
+			if !injectiveComponent(el, sep) {
+				injective = false
+			}
+		}
+		switch {
+		case !isConst:
+			e.undecided("R1", construct, e.ipos(in), "separator is not a constant")
+		case len(comps) == 0:
+			e.undecided("R1", construct, e.ipos(in), "components of the joined key not found")
+		case !injective:
+			e.fail("R1", construct, e.ipos(in), "hash and range renderings are joined with the constant %q without escaping or length-prefixing: (\"a%sb\",\"c\") and (\"a\",\"b%sc\") produce the same key string and overwrite each other", sep, sep, sep)
+		default:
+			e.pass("R1", construct, e.ipos(in), "every component is quoted/escaped/length-prefixed before joining with %q", sep)
+		}
+	}
 	for g := range e.reach(gk) {
 		if e.fnRole(g) != "core" {
 			continue
 		}
+		// string concatenations that are operands of a larger concatenation are not roots
+		inner := map[ssa.Value]bool{}
 		instrs(g, func(in ssa.Instruction) {
-			c, ok := in.(*ssa.Call)
-			if !ok {
-				return
+			if b, ok := in.(*ssa.BinOp); ok && b.Op == token.ADD && isStringType(b.Type()) {
+				inner[b.X], inner[b.Y] = true, true
 			}
-			name := staticCalleeName(c)
-			if name != "strings.Join" {
-				return
-			}
-			sep, isConst := constString(c.Call.Args[1])
-			found++
-			construct := e.fname(g) + ":composite-key-encoding"
-			// components appended to the joined slice: are they passed through an injective wrapper?
-			injective := true
-			raw := 0
-			instrs(g, func(j ssa.Instruction) {
-				ac, ok := j.(*ssa.Call)
-				if !ok || staticCalleeName(ac) != "builtin.append" {
-					return
-				}
-				for _, el := range variadicElems(ac.Call.Args[1]) {
-					raw++
-					if !injectiveComponent(el, sep) {
-						injective = false
+		})
+		instrs(g, func(in ssa.Instruction) {
+			switch x := in.(type) {
+			case *ssa.Call:
+				switch staticCalleeName(x) {
+				case "strings.Join":
+					sep, isConst := constString(x.Call.Args[1])
+					var comps []ssa.Value
+					instrs(g, func(j ssa.Instruction) {
+						if ac, ok := j.(*ssa.Call); ok && staticCalleeName(ac) == "builtin.append" {
+							comps = append(comps, variadicElems(ac.Call.Args[1])...)
+						}
+					})
+					comps = append(comps, variadicElems(x.Call.Args[0])...)
+					report(g, in, sep, isConst, comps)
+				case "fmt.Sprintf":
+					// a format with several verbs composes its arguments
+					f, isConst := constString(x.Call.Args[0])
+					comps := variadicElems(x.Call.Args[1])
+					if len(comps) >= 2 {
+						if isConst && strings.Count(f, "%q")+strings.Count(f, "%x") == len(comps) {
+							found++
+							e.pass("R1", e.fname(g)+":composite-key-encoding", e.ipos(in), "every component is rendered quoted/hex by the format %q", f)
+						} else {
+							report(g, in, f, isConst, comps)
+						}
 					}
 				}
-			})
-			switch {
-			case !isConst:
-				e.undecided("R1", construct, e.ipos(in), "separator is not a constant")
-			case raw == 0:
-				e.undecided("R1", construct, e.ipos(in), "components of the joined key not found")
-			case !injective:
-				e.fail("R1", construct, e.ipos(in), "hash and range renderings are joined with the constant %q without escaping or length-prefixing: (\"a%sb\",\"c\") and (\"a\",\"b%sc\") produce the same key string and overwrite each other", sep, sep, sep)
-			default:
-				e.pass("R1", construct, e.ipos(in), "every component is quoted/escaped/length-prefixed before joining with %q", sep)
+			case *ssa.BinOp:
+				if x.Op != token.ADD || !isStringType(x.Type()) || inner[x] {
+					return
+				}
+				var leaves []ssa.Value
+				var flat func(v ssa.Value)
+				flat = func(v ssa.Value) {
+					if b, ok := v.(*ssa.BinOp); ok && b.Op == token.ADD && isStringType(b.Type()) {
+						flat(b.X)
+						flat(b.Y)
+						return
+					}
+					leaves = append(leaves, v)
+				}
+				flat(x)
+				sep := ""
+				var comps []ssa.Value
+				for _, l := range leaves {
+					if c, ok := constString(l); ok {
+						sep += c
+					} else {
+						comps = append(comps, l)
+					}
+				}
+				if len(comps) >= 2 {
+					report(g, in, sep, true, comps)
+				}
 			}
 		})
 	}
 	if found == 0 {
-		e.undecided("R1", "core:composite-key-encoding", e.pos(gk.Pos()), "no recognised key composition (strings.Join) reachable from GetKey; the encoding idiom cannot be classified")
+		e.undecided("R1", "core:composite-key-encoding", e.pos(gk.Pos()), "no recognised key composition (strings.Join, string concatenation, multi-verb Sprintf) reachable from GetKey; the encoding idiom cannot be classified")
 	}
 }
 
